@@ -491,6 +491,40 @@ theorem C08_csptpcli_genuine_pair_completes_swapped (dl : Bool) (seq : Nat) (st 
     simp only [applyCls]
     exact ⟨_, rfl, rfl, rfl, fun _ => ⟨rfl, rfl⟩⟩
 
+/-! ### the client against the listener of this commit -/
+
+/-- a history in which nothing arrives: read errors only -/
+def Silent (evs : List Ev) : Prop := ∀ e ∈ evs, ∃ b, e = .readErr b
+
+/-- with nothing arriving the loop never completes -/
+theorem C08_csptpcli_silence_never_completes (dl : Bool) (seq : Nat) : ∀ (evs : List Ev) (st : Loop) (tr : List String),
+    Silent evs → st.ok0 = false → ∀ st' tr', run dl seq st tr evs ≠ .ok st' tr' := by
+  intro evs
+  induction evs with
+  | nil => intro st tr _ _ st' tr' h; cases h
+  | cons e rest ih =>
+    intro st tr hs h0 st' tr' h
+    obtain ⟨b, he⟩ := hs e (List.mem_cons_self)
+    subst he
+    unfold run at h
+    rw [iter_readErr] at h
+    rcases failPath_cases dl st b "read" logRead with ⟨h', _⟩ | ⟨h', _⟩ <;> rw [h'] at h <;> simp only at h
+    · exact ih st.bump _ (fun e he => hs e (List.mem_cons_of_mem _ he)) h0 st' tr' h
+    · cases h
+
+/-- **End to end at this commit.**  The request pair the client sends is taken up by the listener
+    (`C08CsptpSrv.C08_csptpsrv_client_request_taken_up`), the listener sends nothing
+    (`C08_csptpsrv_never_panics_never_sends`), so the client's history is silent and
+    `MeasureClockOffset` never reports an offset from this listener: it returns the read error
+    once the deadline has passed.  (C18's formula clause through the real message flow therefore
+    has no instance with the real listener; with a responder that fills in the timestamps it is
+    `C18_client_offset_exact` composed with `C08_csptpcli_offset_only_from_matching_pair`.) -/
+theorem C08_csptp_e2e_no_measurement_from_this_listener (dl : Bool) (seq : Nat) (evs : List Ev) (hs : Silent evs) :
+    (∀ st tr, run dl seq (Loop.start seq) [] evs ≠ .ok st tr) ∧
+    run dl seq (Loop.start seq) [] [.readErr false] = .err "read" [] :=
+  ⟨C08_csptpcli_silence_never_completes dl seq evs _ _ hs rfl, by
+    unfold run; rw [iter_readErr]; unfold failPath; simp⟩
+
 /-! ### instances (non-vacuity) and the shapes the live run exercises -/
 
 /-- a genuine pair for sequence id 5: Sync from 319, Follow_Up + 36-byte response TLV from 320 -/
